@@ -27,9 +27,16 @@ RULE = ("random ADMGs with 1-5 nodes x conjunctions of 1-4 counterfactual events
         "has a counterfactual world, the graph has an edge and ID* went past line 3 (it built a counterfactual graph) "
         "and answered with an estimand, Zero from line 5, or 'unidentifiable'.")
 ASSUMPTIONS = [
-    "soundness (estimand = P(event)) and zero-soundness beyond lines 2, 3 and 5 have NO theorem (F10: the implementation is "
-    "wrong on ~10% of random events): decided by correspondence + exact evaluation on 8 sampled functional SCMs per case "
-    "(cardinalities 2-3); the known wrong answers are listed in known_findings.jsonl",
+    "soundness is a THEOREM on the named fragment InFragment (Props/C07.lean idstar_sound_fragment, idstar_answers_fragment; "
+    "decidable test inFragmentB = in_fragment() below): events all of whose keys carry one subscript set, with unstarred values "
+    "and unstarred subscripts (the interventional queries P(y_x), conjunctions allowed): for every functional SCM compatible "
+    "with the graph (normalised noise, mechanisms bounded by a finite domain) the returned expression, read by `cden` "
+    "(Lemmas/CfDen.lean: the reading of the property), equals P(event), and ID* always answers. The harness reports how many "
+    "generated cases fall in the fragment (tags in_fragment, in_fragment_past_line3: ~30% / ~23% of the quick stream) and "
+    "treats ANY oracle failure inside it as a violation regardless of the finding keys (key IN-FRAGMENT is never listed)",
+    "OUTSIDE the fragment soundness (estimand = P(event)) and zero-soundness beyond lines 2, 3 and 5 have NO theorem (F10: the "
+    "implementation is wrong on ~10% of random events): decided by correspondence + exact evaluation on 8 sampled functional "
+    "SCMs per case (cardinalities 2-3); the known wrong answers are listed in known_findings.jsonl",
     "reading of an estimand: a free outcome variable takes the event's value for that variable; when the event gives the "
     "variable both values (x in one world, x' in another) the reading is ambiguous and the oracle accepts the estimand if "
     "SOME choice (per leaf) works in all sampled models; subscripts: +X is the literal x'; -X is the value bound by an "
@@ -38,8 +45,11 @@ ASSUMPTIONS = [
     "valued by the event must not influence the value (all its values are tried)",
     "'otherwise refuses with unidentifiable': completeness of the refusal is not checked (no independent identifiability "
     "decision procedure for counterfactual events); only that the refusal is the Unidentifiable exception and nothing else",
-    "termination of the model is by fuel (2|V| + |event| + 4); 'the fuel is never exhausted' is proved only in part "
-    "(Props/C07.lean) and otherwise checked on every generated input (an exhausted fuel would be a correspondence disagreement)",
+    "termination: the model recurses on a fuel (2|V| + |event| + 4); that the fuel is never exhausted is now a THEOREM "
+    "(Props/C07.lean idstar_terminates / idstar_never_out_of_fuel / idstar_outcomes) for well-formed graphs without self-loop "
+    "edges and well-formed events (GoodEv: keys are variables of the graph with consistent subscript sets), every iteration "
+    "order; events with a variable outside the graph or with contradictory subscripts (x and x' in one subscript set) are "
+    "outside that theorem and are covered by the correspondence only",
     "Product.safe orders factors by a partial key with ties in set-iteration order: factor order is not modelled, products "
     "are compared as multisets",
     "known findings: keys by minimal shrunk events did not converge (30 minimal forms after ~150 000 cases, a new one every "
@@ -120,6 +130,17 @@ def single_world(expr):
     return True
 
 
+def contradictory_subscripts(expr):
+    """a leaf one of whose variables carries x and x' of the same variable in its subscript set, or None"""
+    for leaf in S.leaves(expr):
+        ch, pa = (leaf[1], leaf[2]) if leaf[0] == "P" else (leaf[2], leaf[3])
+        for x in ch + pa:
+            names = [int(n) for n, _ in x[4]]
+            if len(set(names)) != len(names):
+                return x
+    return None
+
+
 def _judge(case, res, exc, n_models):
     """(failure message, kind) for one result of the real code on an in-domain case"""
     g = {"nodes": G.all_nodes(case["g"]), "di": case["g"]["di"], "bi": case["g"]["bi"]}
@@ -132,8 +153,25 @@ def _judge(case, res, exc, n_models):
     if expr == "zero":
         w = S.check_zero(g, ev, case.get("seed", 0), n_models=n_models)
         return (None, None) if w is None else (f"Zero returned for an event of positive probability: {w}", "zero")
+    bad = contradictory_subscripts(expr)
+    if bad is not None:
+        # the evaluator has no opinion on such a term (it is not a distribution), so it must be rejected here
+        return (f"estimand {expr} contains the term {bad} whose subscript set gives one variable both values: it denotes "
+                "nothing, so it cannot equal P(event)"), "illformed"
     w = S.check_estimand(g, ev, expr, case.get("seed", 0), n_models=n_models)
     return (None, None) if w is None else (f"estimand {expr} differs from P(event): {w}", "value")
+
+
+def in_fragment(case):
+    """the NAMED FRAGMENT of Props/C07.lean (`InFragment`): a non-empty well-formed event over variables of the graph all of
+    whose keys carry ONE subscript set (possibly empty: all factual), with unstarred values and unstarred subscripts
+    (P(y_x) with x, y the unstarred values).  Inside it ID* is proved sound, so ANY oracle failure there is a violation."""
+    ev = case["event"]
+    if not ev or case.get("malformed") or not C18._in_domain(case):
+        return False
+    if len({json.dumps(sorted([int(n), s_] for n, s_ in var[4])) for var, _ in ev}) != 1:
+        return False
+    return all(val == "m" for _, val in ev) and all(s_ == "m" for var, _ in ev for _, s_ in var[4])
 
 
 def _evaluate(case, n_models=8, with_unpatched=True):
@@ -163,7 +201,9 @@ def _evaluate(case, n_models=8, with_unpatched=True):
             if fail:
                 strategy = strat_of.get(json.dumps(r))
                 break
-    return {"by_order": by_order, "unpatched": r0, "fail": fail, "kind": kind, "in_domain": dom, "strategy": strategy}
+    frag = in_fragment(case)
+    return {"by_order": by_order, "unpatched": r0, "fail": fail, "kind": kind, "in_domain": dom, "strategy": strategy,
+            "in_fragment": frag}
 
 
 # ------------------------------------------------------------------------------------------ locating a failure in the recursion
@@ -242,6 +282,16 @@ def _is_self_intervened(v):
     return any(i.name == v.name for i in getattr(v, "interventions", ()))
 
 
+def _independent_conflicts(nsi_nodes, event):
+    """line 8 of ID* (Shpitser & Pearl), written from the paper, independent of get_conflicts: some subscript x of a node of
+    the (non-self-intervened part of the) counterfactual graph and some x' among the values / subscripts of the event name the
+    same variable with different values"""
+    subs = {(i.name, bool(i.star)) for n in nsi_nodes for i in getattr(n, "interventions", ())}
+    evid = {(val.name, bool(val.star)) for val in event.values()}
+    evid |= {(i.name, bool(i.star)) for k in event for i in getattr(k, "interventions", ())}
+    return sorted((a, sa, sb) for a, sa in subs for b, sb in evid if a == b and sa != sb)
+
+
 def _local_class(node):
     """(step, tags): which step of the blamed call produced the answer and which of the known defect patterns are present
     there.  step 'line6' (district decomposition) / 'line9' (base case) / None (something else: keyed exactly)."""
@@ -285,6 +335,10 @@ def _local_class(node):
         cf = node["cg"][0]
         nsi = [n for n in cf.nodes() if not _is_self_intervened(n)]
         tags = set()
+        if _independent_conflicts(nsi, node["cg"][1]):
+            # lines 7-8 of ID*, re-implemented from the paper: an estimand although a subscript of the graph contradicts a
+            # value / subscript of the event.  Never listed: the unmutated code refuses here.
+            return "line9", ["A0:line-8-conflict-present-but-an-estimand-was-returned"]
         if len({n.name for n in nsi}) < len(nsi):
             tags.add("D1:two-copies-of-a-variable-reach-line-9")
         worlds = {frozenset(n.interventions) if isinstance(n, CounterfactualVariable) else frozenset() for n in nsi}
@@ -297,6 +351,9 @@ def _local_class(node):
 def _coarse_key(case, r):
     """finding key of a wrong value / wrong Zero located in the recursion: (kind, step of the blamed call, defect patterns
     present at that step); None when the failure cannot be located (then the shrunk input is the key)"""
+    if r.get("in_fragment"):
+        # never listed: the fragment is covered by a theorem, nothing that fails inside it can be a known finding
+        return json.dumps(["IN-FRAGMENT", r["kind"]])
     if r["kind"] not in ("value", "zero"):
         return None
     try:
@@ -331,7 +388,8 @@ def run_python(case):
             "answer": shape, "order_dependent": len(distinct) > 1, "unpatched_differs": r0 not in by_order,
             "in_domain": r["in_domain"], "has_bidirected": bool(case["g"]["bi"]),
             "single_world_leaves": all(single_world(x[1]) for x in by_order if x[0] == "ok"),
-            "failure_kind": r["kind"]}
+            "failure_kind": r["kind"], "in_fragment": r["in_fragment"],
+            "in_fragment_past_line3": bool(r["in_fragment"] and past3)}
     nontrivial = r["in_domain"] and K.n_worlds(ev) >= 1 and bool(case["g"]["di"] or case["g"]["bi"]) and past3 and \
         shape in ("P", "sum", "prod", "unidentifiable", "zero")
     out = {"out": ["orders", by_order], "fail": r["fail"], "nontrivial": bool(nontrivial), "tags": tags}
@@ -379,12 +437,40 @@ def case_key(case):
     return SHRINK.shrink_to_key(case, r["kind"])[1]
 
 
+def _shrink_same_key(case, key0, budget=120):
+    """greedy shrinking that keeps the LOCATED finding key (kind, blamed step, defect pattern): shrinking by failure kind alone
+    can slide from a new defect into a neighbouring input that only shows a listed one (seen with conflict detection
+    disabled: every replay shrank into F10/M1)"""
+    cur = {k: case[k] for k in ("g", "event", "seed") if k in case}
+    cur["g"] = {"nodes": G.all_nodes(cur["g"]), "di": cur["g"]["di"], "bi": cur["g"]["bi"]}
+    improved = True
+    while improved and budget > 0:
+        improved = False
+        for cand in K.shrink_event_case(cur, keys=("event",)):
+            budget -= 1
+            if budget <= 0:
+                break
+            try:
+                r = _evaluate(cand, with_unpatched=False)
+                ok = bool(r["fail"]) and _coarse_key(cand, r) == key0
+            except Exception:
+                continue
+            if ok:
+                cur, improved = cand, True
+                break
+    return cur
+
+
 def shrink(case):
     if case.get("_noshrink"):
         return
     r = _evaluate(case)
     if r["fail"]:
-        small = SHRINK.shrink_fully(case, r["kind"])     # a small replay; the finding key is computed on the ORIGINAL input
+        key0 = _coarse_key(case, r)
+        if key0 is not None:
+            small = _shrink_same_key(case, key0)
+        else:
+            small = SHRINK.shrink_fully(case, r["kind"])     # a small replay; the finding key is computed on the ORIGINAL input
         yield dict(small, _noshrink=True)
 
 
@@ -403,13 +489,18 @@ MANIFEST = {
              "a well-formed event the only outcomes are an estimand, Zero, 'unidentifiable' or the model's fuel bound (the "
              "RuntimeError of line 6, the null-graph error of nx.is_connected, ValueError/NetworkXError of the helpers are "
              "unreachable); an answer reached with some fuel is not changed by more fuel; every leaf of a returned estimand is a "
-             "single-world interventional term (C06 part); Zero returned by line 5 is sound (by C18's cg_prob). Soundness of the returned estimand and of Zero from line 6 has NO "
+             "single-world interventional term (C06 part); Zero returned by line 5 is sound (by C18's cg_prob). TERMINATION is proved "
+             "(idstar_terminates / idstar_outcomes: 2|V|+3 units of fuel are never exhausted; the outcomes are an estimand, Zero or "
+             "'unidentifiable', nothing else). SOUNDNESS is proved on the named fragment InFragment (all keys in one world, unstarred "
+             "values and subscripts: the queries P(y_x)): idstar_sound_fragment -- in every compatible functional SCM the returned "
+             "expression equals P(event) -- and idstar_answers_fragment (ID* never refuses there); the proof goes through the product "
+             "structure of the noise space, local mechanism events, the c-component factorisation over the districts of the "
+             "counterfactual graph and marginalisation. Outside the fragment soundness of the returned estimand and of Zero from line 6 has NO "
              "theorem; on the current tree it is false (F10): the check decides it by correspondence with the real code plus "
              "exact evaluation on sampled functional SCMs, locates every wrong answer in the recursion of the real code and lists the "
-             "known defect patterns (F10/M1-M5, D1-D2) as open findings; a wrong step that shows none of them is a new violation. Termination of the line-6 recursion is by fuel in the model (never exhausted on any generated "
-             "input), not proved."),
+             "known defect patterns (F10/M1-M5, D1-D2) as open findings; a wrong step that shows none of them is a new violation; any failure inside the fragment is a violation whatever its key."),
     "note": ("Trusted: Lean kernel + standard axioms; the hand-written models tied to the code by differential testing under "
              "all set-iteration orders; the reading convention of estimands stated in ASSUMPTIONS; sampled models (8 per "
              "case). One small defect was fixed (line 9 marginalisation, 4295b26); the F10 family stays open: 16 finding keys (failure kind x step of the blamed recursive call x known defect pattern), each with a minimal example."),
-    "technique": "Lean 4 theorems (lines 2-3 over all functional SCMs, error taxonomy, vocabulary invariant) + differential correspondence + exact-rational functional-SCM oracle + shrunk known findings",
+    "technique": "Lean 4 theorems (termination; soundness on the single-world unstarred fragment over all functional SCMs; lines 2-3-5; error taxonomy; vocabulary invariant) + differential correspondence + exact-rational functional-SCM oracle + located known findings",
 }
